@@ -101,15 +101,19 @@ static void vectorPair(int which, int ns, int placement, char** vec, int n) {
 
 static void argsMode(char* line) {
     char* f[4];
-    static char* argv[9]; static char* envp[9];
+    static char* argv[12]; static char* envp[9];
     int argc, envc, i;
     if (hx_split(line, ',', f, 4) != 4) _exit(71);
     memset(s300, 'x', 300);
     for (i = 0; i < 255; i++) sBytes[i] = (char)(i + 1);
+    int tail = atoi(f[2]) / 10, placement = atoi(f[2]) % 10;
     argc = parseVec(f[0], argv); envc = parseVec(f[1], envp);
-    if (!wasiInit(argc, argv, envp)) { fprintf(hx_out, "HARNESS-ERROR wasiInit\n"); _exit(71); }
-    vectorPair(0, atoi(f[3]), atoi(f[2]), argv, argc);
-    vectorPair(1, atoi(f[3]), atoi(f[2]), envp, envc);
+    /* the argument vector given at initialisation is argv[0..argc): tail 1 = the array goes on with further strings behind it
+       (an embedder handing over a prefix of a longer array), tail 2 = no array at all for an empty vector */
+    if (tail == 1) { argv[argc] = (char*)"EXTRA-1"; argv[argc + 1] = (char*)"EXTRA-22"; argv[argc + 2] = NULL; }
+    if (!wasiInit(argc, tail == 2 && argc == 0 ? NULL : argv, envp)) { fprintf(hx_out, "HARNESS-ERROR wasiInit\n"); _exit(71); }
+    vectorPair(0, atoi(f[3]), placement, argv, argc);
+    vectorPair(1, atoi(f[3]), placement, envp, envc);
 }
 
 /* ------------------------------------------------------------------ (b) clocks */
